@@ -589,7 +589,7 @@ func runC07(r *evid.Run) {
 	}
 	gdir := filepath.Join(scratch, "gs")
 	os.MkdirAll(gdir, 0o755)
-	gcfg := "SPECIFICATION Spec\nCONSTANTS\n RSize = 8\n MaxLen = 7\n WithIf = TRUE\n NoAssign = FALSE\n Repeat = 1\nINVARIANT TypeOK\nCHECK_DEADLOCK FALSE\n"
+	gcfg := "SPECIFICATION Spec\nCONSTANTS\n RSize = 8\n MaxLen = 7\n WithIf = TRUE\n NoAssign = FALSE\n Repeat = 1\n WithCalls = FALSE\nINVARIANT TypeOK\nCHECK_DEADLOCK FALSE\n"
 	if _, err := tlc.Run(tlc.Options{SpecDir: specDir, Module: "GoSubset", CfgText: gcfg, Workers: 1, Timeout: 15 * time.Minute,
 		Args: []string{"-simulate", fmt.Sprintf("file=%s/b,num=%d", gdir, r.Pick(4, 24)), "-depth", "8", "-seed", strconv.FormatInt(r.Seed*29+3, 10)}}); err != nil {
 		r.Inconclusive("tlc simulate GoSubset: %v", err)
